@@ -5,6 +5,8 @@
 // exit 1 = a pixel differs from the model / out_of_range escaped / memory error (ASan); 0 = agrees on this input; 2 = not replayable.
 #include "replay/common/args.hh"
 #include "Image.hh"
+#include <algorithm>
+#include <cstdlib>
 #include <functional>
 #include <stdexcept>
 #include <vector>
@@ -114,6 +116,11 @@ int main(int argc, char** argv) {
   }
 
   Shape ds = shape(A, "d", 8, 8), ss = shape(A, "s", 8, 8), ms = shape(A, "m", 8, 8);
+  // canvases a mode does not use carry arbitrary ghost values in the counterexample: fall back to a default shape for them
+  bool uses_src = m.find("blit") != string::npos || m.rfind("copy_", 0) == 0 || m.rfind("move_", 0) == 0, uses_mask = m == "mask_blit_mask";
+  if (!uses_src || (!shape_ok(ss) && false)) { if (!shape_ok(ss)) ss = Shape{8, 8, true, 8}; }
+  if (!uses_mask && !shape_ok(ms)) ms = Shape{8, 8, true, 8};
+  if (m.rfind("copy_", 0) == 0 || m.rfind("move_", 0) == 0) { if (!shape_ok(ds)) ds = Shape{8, 8, true, 8}; }
   if (!shape_ok(ds) || !shape_ok(ss) || !shape_ok(ms)) { printf("canvas shape not replayable natively (dimension > %zd or invalid channel width)\n", LIM); return 2; }
   Px key{{r, g, b, 0}};
   if (m == "mask_blit_c" || m == "mask_blit_dst_c") key = Px{{(c >> 24) & 0xFFu, (c >> 16) & 0xFFu, (c >> 8) & 0xFFu, 0}};
@@ -255,6 +262,26 @@ int main(int argc, char** argv) {
       RCHECK(on || now == was, "pixel (%zd,%zd) off the segment changed", px, py);
       RCHECK(now == was || now == colour, "pixel (%zd,%zd) changed to something else than the colour", px, py);
       RCHECK(!(on && solid_inside) || now == colour, "pixel (%zd,%zd) of a solid in-canvas line is not coloured", px, py);
+    }
+    return 0;
+  }
+  if (m == "draw_line" || m == "draw_line_c") {
+    ssize_t x0 = (ssize_t)A.u("in_x0"), y0 = (ssize_t)A.u("in_y0"), x1 = (ssize_t)A.u("in_x1"), y1 = (ssize_t)A.u("in_y1");
+    if (m == "draw_line_c") { r = (c >> 24) & 0xFF; g = (c >> 16) & 0xFF; b = (c >> 8) & 0xFF; a = c & 0xFF; }
+    Exc e = run([&] { if (m == "draw_line_c") dst.draw_line(x0, y0, x1, y1, c); else dst.draw_line(x0, y0, x1, y1, r, g, b, a); });
+    RCHECK(e == NONE, "draw_line %s", excname(e));
+    Px colour = stored(ds, r, g, b, a);
+    ssize_t marked = 0;
+    for (ssize_t py = 0; py < ds.h; py++) for (ssize_t px = 0; px < ds.w; px++) {
+      Px now = get(dst, px, py);
+      RCHECK(now == oldat(px, py) || now == colour, "pixel (%zd,%zd) changed to something else than the colour", px, py);
+      marked += !(now == oldat(px, py));
+    }
+    bool inside = x0 >= 0 && y0 >= 0 && x1 >= 0 && y1 >= 0 && x0 < ds.w && x1 < ds.w && y0 < ds.h && y1 < ds.h;
+    if (inside) {   // the statement's line clause, natively (not a verification result): both ends marked, at most max(|dx|,|dy|)+1 pixels
+      ssize_t n = std::max(std::abs(x1 - x0), std::abs(y1 - y0)) + 1;
+      RCHECK(get(dst, x0, y0) == colour && get(dst, x1, y1) == colour, "an end point of an in-canvas line is not marked");
+      RCHECK(marked <= n, "%zd pixels marked, at most %zd expected", marked, n);
     }
     return 0;
   }
